@@ -50,6 +50,9 @@ type Spec struct {
 	Header  []string `json:"header"`
 	Consts  []string `json:"consts"` // files whose const blocks are imported
 	Targets []Target `json:"targets"`
+	// schema extraction (C14): cbor_gen.go files and hand-written codec wrappers (type -> file)
+	Schemas  []string          `json:"schemas"`
+	Wrappers map[string]string `json:"wrappers"`
 }
 
 type typ string
@@ -881,6 +884,10 @@ func main() {
 		panic(err)
 	}
 	for _, sp := range specs {
+		if len(sp.Schemas) > 0 {
+			genSchemas(repo, sp.Schemas, sp.Wrappers, outdir, sp.Out)
+			continue
+		}
 		var out strings.Builder
 		out.WriteString("(* GENERATED by /verif/harness/go2coq from /repo sources — do not edit. *)\n")
 		out.WriteString("From Coq Require Import ZArith Bool.\nFrom F3 Require Import GoInt.\nOpen Scope Z_scope.\n")
